@@ -29,6 +29,10 @@ class Peek:
 
 
 def run(request, cpu=30, wall=240):
+    # LD_BIND_NOW: mc_peek forks a copy of itself per branch; with lazy binding every copy resolves again the symbols of the code
+    # paths that the parent has not executed yet (several ms of dl_lookup per fork)
+    from . import build
+    core.server("mc_peek", env=build.runtime_env({"LD_BIND_NOW": "1"}))
     return Peek(core.serve("mc_peek", request, cpu=cpu, wall=wall))
 
 
